@@ -155,7 +155,7 @@ func init() {
 		Analyses: []string{"frame"},
 		NotDecided: []string{"interleavings are not explored: the frame argument (no write ever reaches shared memory) replaces a thread model, which the technique does not have"},
 		Technique: "frame (modifies) obligations on every function: interprocedural provenance fix-point over go/ssa classifying every written location as argument-, receiver-, fresh- or package-level-rooted; the property holds iff no function outside initialisers writes package-level-rooted memory",
-		LevelText: "A frame obligation per function of the eight packages (write set contains no package-level-rooted memory), one obligation that no package-level variable is written outside initialisers, and one that the library starts no goroutines and uses no unsafe. Decided by an interprocedural provenance analysis (a sound over-approximation of the write set), not by exploring schedules.",
+		LevelText: "A frame obligation per function of the eight packages (write set contains no package-level-rooted memory), an obligation per store of a pointer into package-level memory into a heap object (allowed only for memory declared sharedconst with a reason, listed as assumptions: otherwise memory loaded from an argument could be shared), one obligation that no package-level variable is written outside initialisers, and one that the library starts no goroutines and uses no unsafe. Decided by an interprocedural provenance analysis (a sound over-approximation of the write set), not by exploring schedules.",
 	})
 	registerProp(&PropSpec{
 		ID: "C18", Title: "Walk visits every node of the tree once with balanced Enter/Exit",
@@ -181,7 +181,7 @@ func init() {
 			"conformance of the token stream to the HTML construct grammar (one token per construct with the right type)",
 			"raw-text termination at the matching end tag and the script double-escape rules (only memory safety, the unchanged-input frame and token conservation of shiftRawText are proved)",
 			"svg/math subtrees returned as one token; 'a delimited region is never split across tokens'; HasTemplate exactly when a delimiter was crossed (only: HasTemplate implies delimiters are configured)",
-			"lower-casing of an attribute key when template delimiters are configured (proved for the plain lexer and for tag names)",
+			"with template delimiters configured an attribute key is proved lower-cased unless a byte of the name equals the first byte of the opening delimiter (a necessary condition for a template region inside the name); that such a region really was entered is not decided",
 			"completeness of the ToHash table on its ten names (soundness is proved)",
 		},
 		Technique: "deductive verification: inTag/rawTag state-machine postconditions of Next, lower-cased tag and attribute names, Text/AttrVal sub-slice and buffer-frame clauses (from C02), perfect-hash soundness, for arbitrary NUL-free template delimiters; VCs discharged by z3/cvc5",
